@@ -20,14 +20,15 @@ func init() {
 		Assumptions: []string{"proto.Merge / Marshal+Unmarshal copy; select picks a ready case"},
 		Run:         runC13,
 		Controls: []Control{
+			{Name: "revert-F70-send-after-half-close-unchecked", File: "pkg/wrap/stream.go", Old: "\tif c.sendClosed.Load() {", New: "\tif false {", Expect: "R13.21"},
 			{Name: "merge-fast-path-by-descriptor-name", File: "pkg/wrap/stream.go", Old: "\tif dst.ProtoReflect().Descriptor() == src.ProtoReflect().Descriptor() {", New: "\tif dst.ProtoReflect().Descriptor().FullName() == src.ProtoReflect().Descriptor().FullName() {", Expect: "R13.19"},
 			{Name: "client-send-answers-with-the-context-error", File: "pkg/wrap/stream.go", Old: "\tm = copyOfMessage(m)\n\tselect {\n\tcase <-c.ctx.Done():\n\t\treturn c.closeErrLocked()", New: "\tm = copyOfMessage(m)\n\tselect {\n\tcase <-c.ctx.Done():\n\t\treturn c.ctx.Err()", Expect: "R13.20"},
 			{Name: "trailer-join-without-the-kept-trailer", File: "pkg/wrap/stream.go", Old: "\ts.trailer = metadata.Join(s.trailer, md)", New: "\ts.trailer = metadata.Join(md)", Expect: "R13.11"},
-			{Name: "revert-F68-client-send-hands-over-the-callers-message", File: "pkg/wrap/stream.go", Old: "func (c *clientStream) SendMsg(m any) error {\n\tm = copyOfMessage(m)\n", New: "func (c *clientStream) SendMsg(m any) error {\n", Expect: "R13.16"},
+			{Name: "revert-F68-client-send-hands-over-the-callers-message", File: "pkg/wrap/stream.go", Old: "\t}\n\tm = copyOfMessage(m)\n\tselect {\n\tcase <-c.ctx.Done():", New: "\t}\n\tselect {\n\tcase <-c.ctx.Done():", Expect: "R13.16"},
 			{Name: "trailer-joined-in-reverse", File: "pkg/wrap/stream.go", Old: "\ts.trailer = metadata.Join(s.trailer, md)\n", New: "\ts.trailer = metadata.Join(md, s.trailer)\n", Expect: "R13.11"},
 			{Name: "transport-setheader-sends", File: "pkg/wrap/wrap.go", Old: "func (ts *serverTransportStream) SetHeader(md metadata.MD) error {\n\treturn ts.ss.SetHeader(md)\n", New: "func (ts *serverTransportStream) SetHeader(md metadata.MD) error {\n\treturn ts.ss.SendHeader(md)\n", Expect: "R13.14"},
 			{Name: "cancel-reported-as-close-outcome", File: "pkg/wrap/stream.go", Old: "\t\treturn c.Context().Err()\n", New: "\t\treturn c.closeErrLocked()\n", Expect: "R13.15"},
-			{Name: "revert-F41-closesend-every-time", File: "pkg/wrap/stream.go", Old: "\tc.closeSend.Do(func() {\n\t\tclose(c.clientSend)\n\t})\n", New: "\tclose(c.clientSend)\n", Expect: "R13.13"},
+			{Name: "revert-F41-closesend-every-time", File: "pkg/wrap/stream.go", Old: "\tc.closeSend.Do(func() {\n\t\tc.sendClosed.Store(true)\n\t\tclose(c.clientSend)\n\t})\n", New: "\tc.sendClosed.Store(true)\n\tclose(c.clientSend)\n", Expect: "R13.13"},
 			{Name: "trailer-replaced-not-joined", File: "pkg/wrap/stream.go", Old: "\ts.trailer = metadata.Join(s.trailer, md)", New: "\tfor k, v := range md {\n\t\tif s.trailer == nil {\n\t\t\ts.trailer = metadata.MD{}\n\t\t}\n\t\ts.trailer.Set(k, v...)\n\t}", Expect: "R13.11"},
 			{Name: "discard-unknown-fields", File: "pkg/wrap/stream.go", Old: "proto.UnmarshalOptions{Merge: true}", New: "proto.UnmarshalOptions{Merge: true, DiscardUnknown: true}", Expect: "R13.12"},
 			{Name: "revert-F36-headers-lost-on-early-error", File: "pkg/wrap/stream.go", Old: "\ts.headerM.Lock()\n\tselect {\n\tcase <-s.headerC:\n\tdefault:\n\t\tclose(s.headerC)\n\t}\n\ts.headerM.Unlock()\n\n\ts.closeErrM.Lock()", New: "\ts.closeErrM.Lock()", Expect: "R13.10"},
@@ -58,6 +59,8 @@ func runC13(c *an.Ctx) {
 	c.Min("R13.19", 1)
 	r1320(c, "R13.20")
 	c.Min("R13.20", 2)
+	r1321(c, "R13.21")
+	c.Min("R13.21", 1)
 	// metadata the client can read is exactly what was sent: headers are written only while they have not gone out,
 	// and read only once they have (shared with R11.5 / R11.3, which report the same constructs as races)
 	shareAs(c, "R11.5", "R13.17", r115, nil)
@@ -1381,6 +1384,33 @@ func r1320(c *an.Ctx, rule string) {
 			if len(r.Results) != 1 || provablyNilAt(r.Results[0], r) {
 				continue
 			}
+			// only the answers given because the call's context has ended (the select's Done case); an error the method
+			// raises for another reason (a send after CloseSend) is its own
+			onDone := false
+			for _, e := range an.GuardingEdges(r) {
+				bo, ok := e.If.Cond.(*ssa.BinOp)
+				if !ok || !e.Branch {
+					continue
+				}
+				ex, ok := bo.X.(*ssa.Extract)
+				if !ok || ex.Index != 0 {
+					continue
+				}
+				sel, ok := ex.Tuple.(*ssa.Select)
+				if !ok {
+					continue
+				}
+				if idx, isC := an.ConstInt(bo.Y); isC && int(idx) < len(sel.States) {
+					if st := sel.States[idx]; st.Dir == types.RecvOnly {
+						if _, isDone := an.CtxDone(st.Chan); isDone {
+							onDone = true
+						}
+					}
+				}
+			}
+			if !onDone {
+				continue
+			}
 			n++
 			viaClose := false
 			for _, v := range an.ValuesAt(r.Results[0]) {
@@ -1394,4 +1424,91 @@ func r1320(c *an.Ctx, rule string) {
 		}
 	}
 	c.Count("sendmsg_error_returns", n)
+}
+
+
+// r1321: a Send after the client has half-closed is answered with an error, as on a real connection (Internal:
+// "SendMsg called after CloseSend"), not with a panic. CloseSend closes clientSend; a send on a closed channel
+// panics, so every send on clientSend in clientStream.SendMsg lies behind a test of a flag that CloseSend sets
+// before it closes the channel.
+func r1321(c *an.Ctx, rule string) {
+	fieldOfRecv := func(v ssa.Value) string {
+		for _, s := range an.Sources(v) {
+			if fa, ok := s.(*ssa.FieldAddr); ok {
+				if _, _, f, isF := an.FieldOf(fa); isF {
+					return f
+				}
+			}
+		}
+		if fa, ok := v.(*ssa.FieldAddr); ok {
+			if _, _, f, isF := an.FieldOf(fa); isF {
+				return f
+			}
+		}
+		return ""
+	}
+	// flags set in the function that closes clientSend, before the close
+	flags := map[string]bool{}
+	for _, fn := range c.Prog.FuncsIn(wrapPkg) {
+		var closeCall *ssa.Call
+		an.Instrs(fn, func(in ssa.Instruction) {
+			if call, ok := in.(*ssa.Call); ok && an.CalleeName(call) == "builtin close" && isStreamField(sourceField(call.Call.Args[0]), "clientSend") {
+				closeCall = call
+			}
+		})
+		if closeCall == nil {
+			continue
+		}
+		an.Instrs(fn, func(in ssa.Instruction) {
+			switch x := in.(type) {
+			case *ssa.Call:
+				if strings.HasSuffix(an.CalleeName(x), ").Store") && strings.Contains(an.CalleeName(x), "sync/atomic.") && an.Dominates(x, closeCall) {
+					if f := fieldOfRecv(x.Call.Args[0]); f != "" {
+						flags[f] = true
+					}
+				}
+			case *ssa.Store:
+				if fa, ok := x.Addr.(*ssa.FieldAddr); ok && an.Dominates(x, closeCall) {
+					if _, _, f, isF := an.FieldOf(fa); isF {
+						flags[f] = true
+					}
+				}
+			}
+		})
+	}
+	fn := mustFunc(c, rule, wrapPkg, "clientStream", "SendMsg")
+	if fn == nil {
+		return
+	}
+	name := an.FuncName(fn)
+	c.SawFunc(name)
+	n := 0
+	for _, s := range an.Sends(fn) {
+		if !isStreamField(sourceField(s.Chan), "clientSend") {
+			continue
+		}
+		n++
+		guarded := false
+		for _, e := range an.GuardingEdges(s.Instr) {
+			for _, v := range an.Sources(e.If.Cond) {
+				switch x := v.(type) {
+				case *ssa.Call:
+					if strings.HasSuffix(an.CalleeName(x), ").Load") && strings.Contains(an.CalleeName(x), "sync/atomic.") && flags[fieldOfRecv(x.Call.Args[0])] {
+						guarded = true
+					}
+				case *ssa.UnOp:
+					if fa, ok := x.X.(*ssa.FieldAddr); ok {
+						if _, _, f, isF := an.FieldOf(fa); isF && flags[f] {
+							guarded = true
+						}
+					}
+				}
+			}
+		}
+		c.Check(guarded, rule, fmt.Sprintf("%s|send #%d on clientSend lies behind a test of the half-closed flag", name, n), s.Instr.Pos(), "guarded by a flag CloseSend sets before closing the channel",
+			"clientSend is sent on without asking whether CloseSend has closed it: a Send after the client's half-close panics (send on closed channel) where a real connection answers with an Internal status")
+	}
+	if n == 0 {
+		c.Unk(rule, name+"|send on clientSend", fn.Pos(), "no send on clientSend found")
+	}
 }
